@@ -171,3 +171,33 @@ void h_CMD_FilterList(void) {
         else VPOST(wk == id || k == cnt0 - 1 || FilterBytes[k] == wk, "C07: removing one id keeps the others (the last entry moves into the gap)");
     }
 }
+
+/* ReadRelocInfo (relocation / export table of a code file, printed by plist, used by alink): whatever the file holds, the
+ * table that is handed out is safe to use: every name lies inside the string table and the string table ends with NUL
+ * (names are printed with %s).  A record that is cut short or points outside its strings yields no table (NULL), which the
+ * callers must treat as a format error.  Bounded: at most one relocation and one export entry, strings of at most 4 bytes. */
+#ifdef VERIF_NATIVE
+#define IN_OBJ(p, base, n) ((char const*)(p) >= (char const*)(base) && (char const*)(p) < (char const*)(base) + (n))
+#else
+#define IN_OBJ(p, base, n) (__CPROVER_same_object((p), (base)) && (size_t)(__CPROVER_POINTER_OFFSET(p) - __CPROVER_POINTER_OFFSET(base)) < (size_t)(n))
+#endif
+void h_ReadRelocInfo(void) {
+    unsigned rc, ec, sl, sp1, sp2; PRelocInfo r;
+    mk_common(); gf[0].pos = 0; gf_cell_mode = 0;
+    VND(rc, uint); VND(ec, uint); VND(sl, uint); VND(sp1, uint); VND(sp2, uint);
+    VASSUME(rc <= 1 && ec <= 1 && sl <= 4);
+    gf_script_i = 0; gf_script_n = 0;
+    gf_script[gf_script_n++] = rc; gf_script[gf_script_n++] = ec; gf_script[gf_script_n++] = sl;
+    if (rc) { gf_script[gf_script_n++] = 0x1234; gf_script[gf_script_n++] = sp1; gf_script[gf_script_n++] = 0; }
+    if (ec) { gf_script[gf_script_n++] = sp2; gf_script[gf_script_n++] = 0; gf_script[gf_script_n++] = 0x55; }
+    r = ReadRelocInfo(GF_FILE(0));
+    if (r) {
+        VPOST(r->RelocCount == rc && r->ExportCount == ec, "C07: the relocation table has the counts the record states");
+        if (rc) VPOST(IN_OBJ(r->RelocEntries[0].Name, r->Strings, sl), "C03: a relocation entry's name lies inside the record's string table");
+        if (ec) VPOST(IN_OBJ(r->ExportEntries[0].Name, r->Strings, sl), "C03: an export entry's name lies inside the record's string table");
+        if (rc || ec) VPOST(sl >= 1 && r->Strings[sl - 1] == 0, "C03: the string table of a relocation record is NUL-terminated (names are printed as C strings)");
+        VREACH("table");
+    } else {
+        VREACH("rejected");
+    }
+}
